@@ -146,3 +146,36 @@ Definition combined_ident_s (ss : list string) : option string :=
   match combined_ident (map s2l ss) with Ok o => Some (l2s o) | _ => None end.
 Definition legal_input_s (s : string) : bool := legal_input (s2l s).
 Definition snake_class_s (s : string) : bool := snake_class (s2l s).
+
+(* ---- ImplWork::get_methods (after fix_variant_collision): two methods selected for one model must not be mangled
+   into the same Script variant; the first clash aborts with a diagnostic naming both methods ----
+   seen = the `variants` vector (method name, variant name) in insertion order *)
+Inductive vres := VOk (variants : list chars) | VDiag (first second : chars) | VPanic.
+
+Fixpoint find_first (f : chars) (seen : list (chars * chars)) : option chars :=
+  match seen with
+  | [] => None
+  | (n, g) :: r => if chars_eqb g f then Some n else find_first f r
+  end.
+
+Fixpoint check_variants (seen : list (chars * chars)) (names : list chars) : vres :=
+  match names with
+  | [] => VOk (map snd seen)
+  | n :: r =>
+      match script_field n with
+      | Ok f => match find_first f seen with
+                | Some first => VDiag first n
+                | None => check_variants (seen ++ [(n, f)]) r
+                end
+      | _ => VPanic
+      end
+  end.
+
+Definition script_variants (names : list chars) : vres := check_variants [] names.
+
+Definition script_variants_s (ss : list string) : option (list string) + (string * string) :=
+  match script_variants (map s2l ss) with
+  | VOk vs => inl (Some (map l2s vs))
+  | VDiag a b => inr (l2s a, l2s b)
+  | VPanic => inl None
+  end.
